@@ -111,7 +111,12 @@ def _cmp_note(ctx, bad, i, e, o, core_file):
     if bytes(o['n_descdata']) != bytes(e['desc']):
         bad('n_descdata', {'note': i, 'desc': e['desc']}, list(o['n_descdata']))
     k = e['dk']
-    if k != 'raw':
+    if k == 'raw':
+        # a note no transcribed standard gives a meaning to can only be handed out as its descriptor bytes
+        if e.get('opaque') and not (isinstance(o['n_desc'], (bytes, bytearray)) and bytes(o['n_desc']) == bytes(e['desc'])):
+            bad('n_desc.opaque', {'note': i, 'owner': bytes(e['name']).decode('latin-1') if e['hasname'] else None, 'code': code,
+                                  'n_desc': e['desc']}, _plain(o['n_desc']))
+    else:
         try:
             _cmp_desc(ctx, bad, i, k, e['df'], e['dn'], o['n_desc'])
         except (KeyError, TypeError, AttributeError, IndexError) as ex:
@@ -151,6 +156,17 @@ def _cmp_desc(ctx, bad, i, k, f, nm, d):
                        (not isinstance(q['pr_type'], str) and isinstance(got, bytes) and got == data)
                 if not good:
                     bad(cl + '.pr_data', {'note': i, 'prop': j, 'value': val}, _plain(got))
+            elif hint['pk'] == 'u64x2':
+                # two 64-bit words: the bytes, or the two values in any container that keeps their order
+                vals = [_word(hint['val'][:8]), _word(hint['val'][8:])]
+                if isinstance(got, dict):
+                    seen = [v for v in got.values() if isinstance(v, int)]
+                elif isinstance(got, (list, tuple)):
+                    seen = list(got)
+                else:
+                    seen = None
+                if not ((isinstance(got, bytes) and got == data) or seen == vals):
+                    bad(cl + '.pr_data', {'note': i, 'prop': j, 'bytes': list(data), 'words': vals}, _plain(got))
             else:
                 if not ((isinstance(got, bytes) and got == data) or (got is None and not data)):
                     bad(cl + '.pr_data', {'note': i, 'prop': j, 'bytes': list(data)}, _plain(got))
@@ -464,7 +480,8 @@ def check(run):
     from elftools.elf.sections import NoteSection
     from elftools.elf.segments import NoteSegment
     run.rule = ('G cases = finished extents of the Notes writer (size sweep over namesz/descsz residues incl. header-only notes and '
-                'trailing padding, owner x type sweep, decoded descriptors incl. property lists, stabs), each exposed as SHT_NOTE '
+                'trailing padding, owner x type x e_type sweep, decoded descriptors incl. property lists under several e_types, stabs), '
+                'each exposed as SHT_NOTE '
                 'section and PT_NOTE segment of one ELF image and consumed in 8 iterator patterns; distinct by file bytes; '
                 'non-trivial = at least one note / stab record.  T cases = note sections and segments of the corpus files; '
                 'non-trivial = all of them')
@@ -472,10 +489,15 @@ def check(run):
                         'type-code names are asserted only where the owner that defines the code is the note\'s owner '
                         '("GNU" outside ET_CORE, "CORE" in ET_CORE); otherwise the raw integer or any registered name of the code passes',
                         'names the vendored registry and the specification do not define are not asserted (vocabulary gating)',
+                        'n_desc of a note the specification has no layout for is asserted (= the raw descriptor bytes) only when no '
+                        'transcribed standard gives the (owner, type) pair a meaning: owners other than the one defining the codes of '
+                        'this kind of file (except "FreeBSD") and codes owner "GNU" does not define',
+                        'a file is a core file iff e_type = ET_CORE; every other e_type (ET_NONE, OS- and processor-specific) '
+                        'uses the GNU note type names',
                         'in ET_CORE files types 3 and NT_FILE are generated with owner "CORE" and a well-formed descriptor only',
                         'corpus extents whose notes overrun the extent (dwarf_phantombytes.elf marks DWARF sections SHT_NOTE) '
                         'are not well-formed inputs and are not judged']
-    cfgs = ['Notes_quick'] if run.tier == 'quick' else ['Notes_thorough', 'Notes_thorough3', 'Notes_thorough_props']
+    cfgs = ['Notes_quick'] if run.tier == 'quick' else ['Notes_thorough', 'Notes_thorough3', 'Notes_thorough_props', 'Notes_thorough_props2']
     seen = set()
     ctx = None
     provers = _apalache_start(run)
@@ -514,7 +536,7 @@ def check(run):
     _apalache_collect(run, provers)
     run.extra['exhaustive'] = True
     run.extra['explanation'] = ('exhaustive within the bounds of the configuration(s) %s (see the cfg comment blocks); '
-                                'TLC checks EveryNoteOnce, ExtentConsumed, SectionViewEqualsSegmentView, NotesTile, DescRoundTrip, '
+                                'TLC checks EveryNoteOnce, ExtentConsumed, SectionViewEqualsSegmentView, NotesTile, DescRoundTrip, OnlyDefiningOwnerDecodes, '
                                 'StabsExact, ImageCarriesExtent, WalkerProgress and Termination on the specification itself' % ', '.join(cfgs))
     if not run.samples:
         run.samples.append({'note': 'no sample'})
